@@ -57,9 +57,14 @@ const (
 	fNotLeader = "notleader-then-ok"
 	fEpochMeta = "epoch-not-match(with-region)"
 	fEpochNone = "epoch-not-match(empty)"
+	// persistent answers: every RPC of that (region role, phase) gets the recoverable region
+	// error for as long as the client under test keeps trying (election in progress / region
+	// permanently re-split): the client's retry budget runs out
+	fNotLeaderForever = "notleader(no-hint)-persistent"
+	fEpochForever     = "epoch-not-match(with-region)-persistent"
 )
 
-var faultKinds = []string{fErrBefore, fErrAfter, fNotLeader, fEpochMeta, fEpochNone}
+var faultKinds = []string{fErrBefore, fErrAfter, fNotLeader, fEpochMeta, fEpochNone, fNotLeaderForever, fEpochForever}
 
 type fault struct {
 	Role  string // "P" = the primary's region, "S1"/"S2" = secondary regions in ascending region order
@@ -198,6 +203,14 @@ func (s *stub) gate(ctx *pb.Context, method, phase string) (*pb.RegionError, err
 			case fEpochNone:
 				w.trace = append(w.trace, rpcEvent{s.store, r, method, "EpochNotMatch (no region attached)"})
 				return &pb.RegionError{EpochNotMatch: &pb.EpochNotMatch{}}, nil, false
+			case fNotLeaderForever:
+				w.fired[i] = false
+				w.trace = append(w.trace, rpcEvent{s.store, r, method, "NotLeader (no leader known)"})
+				return &pb.RegionError{NotLeader: &pb.NotLeader{RegionId: uint64(r)}}, nil, false
+			case fEpochForever:
+				w.fired[i] = false
+				w.trace = append(w.trace, rpcEvent{s.store, r, method, "EpochNotMatch (current region attached)"})
+				return &pb.RegionError{EpochNotMatch: &pb.EpochNotMatch{CurrentEpoch: &pb.RegionEpoch{Version: 1, ConfVer: 1}, Regions: []*pb.RegionMeta{regionMeta(r)}}}, nil, false
 			}
 		}
 	}
@@ -912,7 +925,7 @@ func main() {
 		Level:       "fault_enumeration",
 		Evaluations: total.Counters["executions"],
 		Distinct:    total.Card("nontrivial"),
-		Rule:        "every mutation set (keys in 1..3 regions, every primary) x {no fault, one injected answer at every (region role, phase) RPC from {transport error before apply, reply lost after apply, NotLeader+leader moved, EpochNotMatch with/without region}} x {no retry, caller re-submits once} plus a concurrent expired-lock resolver before every (role, phase) RPC (thorough: all pairs of faults, fault x resolver); each case re-run with rotating mutation-list permutations until every secondary region was seen first in each phase; non-trivial = the injected answer was actually delivered (error, NotLeader or EpochNotMatch in the trace)",
+		Rule:        "every mutation set (keys in 1..3 regions, every primary) x {no fault, one injected answer at every (region role, phase) RPC from {transport error before apply, reply lost after apply, NotLeader+leader moved, EpochNotMatch with/without region, NotLeader without hint on every attempt, EpochNotMatch on every attempt (the client's retry budget runs out)}} x {no retry, caller re-submits once} plus a concurrent expired-lock resolver before every (role, phase) RPC (thorough: all pairs of faults, fault x resolver); each case re-run with rotating mutation-list permutations until every secondary region was seen first in each phase; non-trivial = the injected answer was actually delivered (error, NotLeader or EpochNotMatch in the trace)",
 		Samples:     total.SamplesAny(),
 		Exhaustive:  !total.TimedOut,
 		Outcomes:    outcomes,
